@@ -1043,7 +1043,7 @@ theorem eqn2tail_step (opts : Opts) (o : Op) (l r : Expr) (size : Nat) (sf : Boo
   have last : Post size
       (if (l.render == r.render) = true then
         if (o == Op.neq || o == Op.lt || o == Op.gt) = true then Except.ok bit0
-        else if (o == Op.eq || o == Op.le || o == Op.ge) = true then Except.ok bit1
+        else if (o == Op.eq || o == Op.le || o == Op.ge) = true then Except.ok (if sf = true then cst 1 1 true else bit1)
         else if (o == Op.sub || o == Op.xor) = true then Except.ok (cst 0 size false)
         else if (o == Op.and || o == Op.or) = true then Except.ok l
         else Except.ok (op o l r size sf prop)
@@ -1056,7 +1056,10 @@ theorem eqn2tail_step (opts : Opts) (o : Op) (l r : Expr) (size : Nat) (sf : Boo
         rcases h with (rfl | rfl) | rfl <;> simp [hs, resSize, Op.type]
       · split
         · rename_i h
-          refine Post_ok WF_bit1 ?_
+          refine Post_ok (e := if sf = true then cst 1 1 true else bit1)
+            (by split <;> simp [WF, bit1]) ?_
+          have e1 : (if sf = true then cst 1 1 true else bit1).size = 1 := by split <;> rfl
+          rw [e1]
           simp only [Bool.or_eq_true, beq_iff_eq] at h
           rcases h with (rfl | rfl) | rfl <;> simp [hs, resSize, Op.type]
         · split
@@ -1665,7 +1668,11 @@ theorem simplify_step (o : Opts) (e : Expr) (he : WF e) : Post e.size (simplify 
     have htr : Tiles size (restruct parts') :=
       tiles_of_disj_cnt r1 (fun x hx => by rw [r3 x, h3 x]; exact ht.2 x hx)
     split
-    · rename_i p hf
+    · rename_i v s f hf
+      have hw := r2 _ (findKey_some_mem hf)
+      have hs := htr.whole_key hf
+      exact Post_pure (by simp only [WF] at hw ⊢; exact hw) hs
+    · rename_i p _ hf
       exact Post_pure (r2 _ (findKey_some_mem hf)) (htr.whole_key hf)
     · exact Post_pure (by simp only [WF]; exact ⟨hpos, htr, (WFParts_iff _).mpr r2⟩) rfl
   · -- tst
